@@ -24,9 +24,9 @@ suite=$(cargo test --workspace --offline -- --skip seed_demo 2>&1 | grep -E "^te
 suite_fail=$(echo "$suite" | grep -v " 0 failed" | wc -l)
 git stash pop -q 2>/dev/null
 echo "   existing suite with patch: $(echo "$suite" | awk '{p+=$4; f+=$6} END{print p" passed, "f" failed"}')"
-with=$($DEMO_CMD 2>&1 | grep -E "^test result" | tail -1)
+o=$(bash -c "$DEMO_CMD" 2>&1); rc=$?; with="exit=$rc $(echo "$o" | grep -E "^test result" | tail -1)"
 git apply -R "$OUT/patch.diff"
-without=$($DEMO_CMD 2>&1 | grep -E "^test result" | tail -1)
+o=$(bash -c "$DEMO_CMD" 2>&1); rc=$?; without="exit=$rc $(echo "$o" | grep -E "^test result" | tail -1)"
 git apply "$OUT/patch.diff"
 echo "   demo with patch:    $with"
 echo "   demo without patch: $without"
